@@ -531,3 +531,242 @@ Proof.
 Qed.
 
 End WithCsize.
+
+(* ---------------------------------------------------------------- resolution and reference creation *)
+Lemma copy_segs_TR src : forall acc, TR (copy_segs acc src).
+Proof.
+  induction src as [|sg r IH]; intros acc s; cbn [copy_segs]; [apply (TR_ret (true, rev acc))|].
+  destruct (TR_alloc false SEG_SIZE s) as [M T]. destruct (alloc false SEG_SIZE s) as [[id|] s1]; cbn [fst snd] in *; [|leaf].
+  destruct (IH ({| sg_text := sg_text sg; sg_blk := None; sg_node := id |} :: acc) s1) as [M2 T2].
+  split; [eapply mono_trans; eauto|]. intros C. rewrite T by cl. rewrite T2 by cl.
+  destruct (copy_segs _ r s1) as [[? ?] ?]. reflexivity.
+Qed.
+Lemma append_segs_TR texts : forall acc, TR (append_segs acc texts).
+Proof.
+  induction texts as [|t r IH]; intros acc s; cbn [append_segs]; [apply (TR_ret (true, rev acc))|].
+  destruct (TR_alloc false SEG_SIZE s) as [M T]. destruct (alloc false SEG_SIZE s) as [[id|] s1]; cbn [fst snd] in *; [|leaf].
+  destruct (IH ({| sg_text := t; sg_blk := None; sg_node := id |} :: acc) s1) as [M2 T2].
+  split; [eapply mono_trans; eauto|]. intros C. rewrite T by cl. rewrite T2 by cl.
+  destruct (append_segs _ r s1) as [[? ?] ?]. reflexivity.
+Qed.
+
+Lemma copy_path_m_TR dest src : TR (copy_path_m dest src).
+Proof.
+  intros s. unfold copy_path_m. destruct (copy_segs_TR (m_segs src) [] s) as [M T].
+  destruct (copy_segs [] (m_segs src) s) as [[[|] segs] s1]; leaf.
+Qed.
+
+Lemma copy_authority_m_TR dest src : TR (copy_authority_m dest src).
+Proof.
+  intros s. unfold copy_authority_m. destruct (m_ip4 src) as [[v b]|].
+  - destruct (TR_alloc false IP4_SIZE s) as [M T]. destruct (alloc false IP4_SIZE s) as [[id|] s1]; leaf.
+  - destruct (m_ip6 src) as [[v b]|].
+    + destruct (TR_alloc false IP6_SIZE s) as [M T]. destruct (alloc false IP6_SIZE s) as [[id|] s1]; leaf.
+    + match goal with |- context [(true, ?d, s)] => apply (TR_ret (true, d)) end.
+Qed.
+
+Lemma merge_path_m_TR work rel : TR (merge_path_m work rel).
+Proof.
+  intros s. unfold merge_path_m. destruct (m_segs rel) as [|r1 rr]; [apply (TR_ret (true, work))|].
+  destruct (m_segs work) as [|g gr].
+  - destruct (TR_alloc false SEG_SIZE s) as [M T]. destruct (alloc false SEG_SIZE s) as [[id|] s1]; cbn [fst snd] in *; [|leaf].
+    destruct (copy_segs_TR rr [] s1) as [M2 T2]. destruct (copy_segs [] rr s1) as [[ok more] s2]. leaf.
+  - destruct (copy_segs_TR rr [] s) as [M2 T2]. destruct (copy_segs [] rr s) as [[ok more] s2]. leaf.
+Qed.
+
+Lemma resolve_abs_flag_m_TR m : TR (resolve_abs_flag_m m).
+Proof.
+  intros s. unfold resolve_abs_flag_m. destruct (m_host_set m && m_abs m); [|apply (TR_ret (Some m))].
+  destruct (m_segs m); [|apply (TR_ret (Some (set_m_abs false m)))].
+  destruct (TR_alloc false SEG_SIZE s) as [M T]. destruct (alloc false SEG_SIZE s) as [[id|] s1]; leaf.
+Qed.
+
+Definition ab_finish (rel d : muri) (s : mstate) : N * muri * mstate :=
+  let '(d, s) := fix_empty_trail_m d s in (URI_SUCCESS, set_m_fragment (borrow (m_fragment rel)) d, s).
+Definition ab_tail (rel base d : muri) (s : mstate) : N * muri * mstate :=
+  let '(ok, d, s) := remove_dot_segments_m false (m_owner d) d s in
+  if negb ok then (URI_ERROR_MALLOC, d, s) else
+  let '(ok, d, s) := fix_ambiguity_m d s in
+  if negb ok then (URI_ERROR_MALLOC, d, s)
+  else ab_finish rel (set_m_scheme (borrow (m_scheme base)) (set_m_query (borrow (m_query rel)) d)) s.
+Definition ab_abs (rel base d : muri) (s : mstate) : N * muri * mstate :=
+  let '(ok, d, s) := copy_path_m d rel s in
+  if negb ok then (URI_ERROR_MALLOC, d, s) else
+  match resolve_abs_flag_m d s with
+  | (None, s) => (URI_ERROR_MALLOC, d, s)
+  | (Some d, s) => ab_tail rel base d s
+  end.
+Definition ab_merge (rel base d : muri) (s : mstate) : N * muri * mstate :=
+  let '(ok, d, s) := copy_path_m d base s in
+  if negb ok then (URI_ERROR_MALLOC, d, s) else
+  let '(ok, d, s) := merge_path_m d rel s in
+  if negb ok then (URI_ERROR_MALLOC, d, s) else ab_tail rel base d s.
+Definition ab_take (rel src d : muri) (s : mstate) : N * muri * mstate :=
+  let '(ok, d, s) := copy_authority_m d src s in
+  if negb ok then (URI_ERROR_MALLOC, d, s) else
+  let '(ok, d, s) := copy_path_m d src s in
+  if negb ok then (URI_ERROR_MALLOC, d, s) else
+  let '(ok, d, s) := remove_dot_segments_m false (m_owner d) d s in
+  if negb ok then (URI_ERROR_MALLOC, d, s) else
+  let '(ok, d, s) := fix_ambiguity_m d s in
+  if negb ok then (URI_ERROR_MALLOC, d, s) else ab_finish rel (set_m_query (borrow (m_query rel)) d) s.
+
+Lemma ab_finish_TR rel d : TR (ab_finish rel d).
+Proof. intros s. unfold ab_finish. destruct (fix_empty_trail_m_TR d s) as [M T]. destruct (fix_empty_trail_m d s) as [d1 s1]. leaf. Qed.
+
+Ltac sub_tr lem call :=
+  let M := fresh "M" in let T := fresh "T" in
+  destruct lem as [M T]; destruct call as [[? ?] ?]; leaf.
+
+Lemma ab_tail_TR rel base d : TR (ab_tail rel base d).
+Proof.
+  intros s. unfold ab_tail.
+  destruct (remove_dot_segments_m_TR false (m_owner d) d s) as [M3 T3].
+  destruct (remove_dot_segments_m false (m_owner d) d s) as [[[|] d3] s3]; cbn [negb]; cbv beta iota; [|leaf].
+  destruct (fix_ambiguity_m_TR d3 s3) as [M4 T4]. destruct (fix_ambiguity_m d3 s3) as [[[|] d4] s4]; cbn [negb]; cbv beta iota; [|leaf].
+  match goal with |- context [ab_finish rel ?dd s4] => sub_tr (ab_finish_TR rel dd s4) (ab_finish rel dd s4) end.
+Qed.
+Lemma ab_abs_TR rel base d : TR (ab_abs rel base d).
+Proof.
+  intros s. unfold ab_abs.
+  destruct (copy_path_m_TR d rel s) as [M2 T2]. destruct (copy_path_m d rel s) as [[[|] d2] s2]; cbn [negb]; cbv beta iota; [|leaf].
+  destruct (resolve_abs_flag_m_TR d2 s2) as [M2b T2b]. destruct (resolve_abs_flag_m d2 s2) as [[d2b|] s2b]; [|leaf].
+  sub_tr (ab_tail_TR rel base d2b s2b) (ab_tail rel base d2b s2b).
+Qed.
+Lemma ab_merge_TR rel base d : TR (ab_merge rel base d).
+Proof.
+  intros s. unfold ab_merge.
+  destruct (copy_path_m_TR d base s) as [M2 T2]. destruct (copy_path_m d base s) as [[[|] d2] s2]; cbn [negb]; cbv beta iota; [|leaf].
+  destruct (merge_path_m_TR d2 rel s2) as [M2b T2b]. destruct (merge_path_m d2 rel s2) as [[[|] d2b] s2b]; cbn [negb]; cbv beta iota; [|leaf].
+  sub_tr (ab_tail_TR rel base d2b s2b) (ab_tail rel base d2b s2b).
+Qed.
+Lemma ab_take_TR rel src d : TR (ab_take rel src d).
+Proof.
+  intros s. unfold ab_take.
+  destruct (copy_authority_m_TR d src s) as [M1 T1]. destruct (copy_authority_m d src s) as [[[|] d1] s1]; cbn [negb]; cbv beta iota; [|leaf].
+  destruct (copy_path_m_TR d1 src s1) as [M2 T2]. destruct (copy_path_m d1 src s1) as [[[|] d2] s2]; cbn [negb]; cbv beta iota; [|leaf].
+  destruct (remove_dot_segments_m_TR false (m_owner d2) d2 s2) as [M3 T3].
+  destruct (remove_dot_segments_m false (m_owner d2) d2 s2) as [[[|] d3] s3]; cbn [negb]; cbv beta iota; [|leaf].
+  destruct (fix_ambiguity_m_TR d3 s3) as [M4 T4]. destruct (fix_ambiguity_m d3 s3) as [[[|] d4] s4]; cbn [negb]; cbv beta iota; [|leaf].
+  match goal with |- context [ab_finish rel ?dd s4] => sub_tr (ab_finish_TR rel dd s4) (ab_finish rel dd s4) end.
+Qed.
+
+Lemma add_base_impl_m_eq compat rel base s :
+  add_base_impl_m compat rel base s =
+  match t_val (m_scheme base) with
+  | None => (URI_ERROR_ADDBASE_REL_BASE, muri_empty, s)
+  | Some _ =>
+    if is_some (t_val (m_scheme rel)) && negb (compat && range_eqb (t_val (m_scheme base)) (t_val (m_scheme rel)))
+    then
+      let '(rc, d, s) := ab_take rel rel (set_m_scheme (borrow (m_scheme rel)) muri_empty) s in (rc, d, s)
+    else if m_host_set rel then
+      let '(ok, d, s) := copy_authority_m muri_empty rel s in
+      if negb ok then (URI_ERROR_MALLOC, d, s) else
+      let '(ok, d, s) := copy_path_m d rel s in
+      if negb ok then (URI_ERROR_MALLOC, d, s) else
+      let '(ok, d, s) := remove_dot_segments_m false (m_owner d) d s in
+      if negb ok then (URI_ERROR_MALLOC, d, s)
+      else ab_finish rel (set_m_scheme (borrow (m_scheme base)) (set_m_query (borrow (m_query rel)) d)) s
+    else
+      let '(ok, d, s) := copy_authority_m muri_empty base s in
+      if negb ok then (URI_ERROR_MALLOC, d, s) else
+      match m_segs rel, m_abs rel with
+      | [], false =>
+        let '(ok, d, s) := copy_path_m d base s in
+        if negb ok then (URI_ERROR_MALLOC, d, s)
+        else ab_finish rel (set_m_scheme (borrow (m_scheme base))
+                       (set_m_query (borrow (match t_val (m_query rel) with Some _ => m_query rel | None => m_query base end)) d)) s
+      | _, _ => if m_abs rel then ab_abs rel base d s else ab_merge rel base d s
+      end
+  end.
+Proof.
+  unfold add_base_impl_m, ab_take, ab_abs, ab_merge, ab_tail, ab_finish. cbv zeta.
+  destruct (t_val (m_scheme base)); [|reflexivity].
+  destruct (is_some (t_val (m_scheme rel)) && negb (compat && range_eqb (Some t) (t_val (m_scheme rel)))).
+  - destruct (copy_authority_m _ rel s) as [[[|] ?] ?]; cbn [negb]; cbv beta iota; [|reflexivity].
+    destruct (copy_path_m _ rel _) as [[[|] ?] ?]; cbn [negb]; cbv beta iota; [|reflexivity].
+    destruct (remove_dot_segments_m false _ _ _) as [[[|] ?] ?]; cbn [negb]; cbv beta iota; [|reflexivity].
+    destruct (fix_ambiguity_m _ _) as [[[|] ?] ?]; cbn [negb]; cbv beta iota; [|reflexivity].
+    destruct (fix_empty_trail_m _ _). reflexivity.
+  - reflexivity.
+Qed.
+
+Lemma add_base_impl_m_TR compat rel base : TR (add_base_impl_m compat rel base).
+Proof.
+  intros s. rewrite !add_base_impl_m_eq.
+  destruct (t_val (m_scheme base)) as [tb|]; [|apply (TR_ret (URI_ERROR_ADDBASE_REL_BASE, muri_empty))].
+  destruct (is_some (t_val (m_scheme rel)) && negb (compat && range_eqb (Some tb) (t_val (m_scheme rel)))).
+  - match goal with |- context [ab_take rel rel ?d s] => sub_tr (ab_take_TR rel rel d s) (ab_take rel rel d s) end.
+  - destruct (m_host_set rel).
+    + destruct (copy_authority_m_TR muri_empty rel s) as [M1 T1].
+      destruct (copy_authority_m muri_empty rel s) as [[[|] d1] s1]; cbn [negb]; cbv beta iota; [|leaf].
+      destruct (copy_path_m_TR d1 rel s1) as [M2 T2]. destruct (copy_path_m d1 rel s1) as [[[|] d2] s2]; cbn [negb]; cbv beta iota; [|leaf].
+      destruct (remove_dot_segments_m_TR false (m_owner d2) d2 s2) as [M3 T3].
+      destruct (remove_dot_segments_m false (m_owner d2) d2 s2) as [[[|] d3] s3]; cbn [negb]; cbv beta iota; [|leaf].
+      match goal with |- context [ab_finish rel ?dd s3] => sub_tr (ab_finish_TR rel dd s3) (ab_finish rel dd s3) end.
+    + destruct (copy_authority_m_TR muri_empty base s) as [M1 T1].
+      destruct (copy_authority_m muri_empty base s) as [[[|] d1] s1]; cbn [negb]; cbv beta iota; [|leaf].
+      destruct (m_segs rel) as [|r1 rr]; destruct (m_abs rel).
+      * sub_tr (ab_abs_TR rel base d1 s1) (ab_abs rel base d1 s1).
+      * destruct (copy_path_m_TR d1 base s1) as [M2 T2]. destruct (copy_path_m d1 base s1) as [[[|] d2] s2]; cbn [negb]; cbv beta iota; [|leaf].
+        match goal with |- context [ab_finish rel ?dd s2] => sub_tr (ab_finish_TR rel dd s2) (ab_finish rel dd s2) end.
+      * sub_tr (ab_abs_TR rel base d1 s1) (ab_abs rel base d1 s1).
+      * sub_tr (ab_merge_TR rel base d1 s1) (ab_merge rel base d1 s1).
+Qed.
+
+Lemma free_members_TR m : TR (free_members m).
+Proof.
+  intros s. destruct (free_members_np m s) as (a & b & c). split; [split; [exact b|lia]|]. intros _. exact a.
+Qed.
+
+Theorem add_base_m_TR compat rel base : TR (add_base_m compat rel base).
+Proof.
+  intros s. unfold add_base_m. destruct (add_base_impl_m_TR compat rel base s) as [M T].
+  destruct (add_base_impl_m compat rel base s) as [[rc d] s1]. destruct (rc =? 0)%N eqn:E0.
+  - cbn [fst snd] in *. split; [exact M|]. intros C. rewrite (T C). rewrite E0. reflexivity.
+  - destruct (free_members_TR d s1) as [M2 T2]. destruct (free_members d s1) as [d' s2]. cbn [fst snd] in *.
+    split; [mo|]. intros C. rewrite T by cl. rewrite E0. rewrite T2 by cl. reflexivity.
+Qed.
+
+Lemma remove_base_impl_m_TR domain_root src base : TR (remove_base_impl_m domain_root src base).
+Proof.
+  intros s. unfold remove_base_impl_m. cbv zeta.
+  destruct (t_val (m_scheme base)) as [tb|]; [|apply (TR_ret (URI_ERROR_REMOVEBASE_REL_BASE, muri_empty))].
+  destruct (t_val (m_scheme src)) as [ts|]; [|apply (TR_ret (URI_ERROR_REMOVEBASE_REL_SOURCE, muri_empty))].
+  assert (Copy : forall d, TR (fun s =>
+           let '(ok, d, s) := copy_authority_m d src s in
+           if negb ok then (URI_ERROR_MALLOC, d, s) else
+           let '(ok, d, s) := copy_path_m d src s in
+           if negb ok then (URI_ERROR_MALLOC, d, s)
+           else (URI_SUCCESS, set_m_fragment (borrow (m_fragment src)) (set_m_query (borrow (m_query src)) d), s))).
+  { intros d s0. destruct (copy_authority_m_TR d src s0) as [M1 T1].
+    destruct (copy_authority_m d src s0) as [[[|] d1] s1]; cbn [negb]; cbv beta iota; [|leaf].
+    destruct (copy_path_m_TR d1 src s1) as [M2 T2]. destruct (copy_path_m d1 src s1) as [[[|] d2] s2]; cbn [negb]; cbv beta iota; leaf. }
+  destruct (negb (range_eqb (scheme (erase src)) (scheme (erase base)))); [apply Copy|].
+  destruct (negb (equals_authority (erase src) (erase base))).
+  { destruct (negb (is_host_set (erase src)) && is_host_set (erase base)); apply Copy. }
+  destruct domain_root.
+  - destruct (copy_path_m_TR muri_empty src s) as [M2 T2]. destruct (copy_path_m muri_empty src s) as [[[|] d2] s2]; cbn [negb]; cbv beta iota; [|leaf].
+    destruct (fix_ambiguity_m_TR (set_m_abs true d2) s2) as [M4 T4].
+    destruct (fix_ambiguity_m (set_m_abs true d2) s2) as [[[|] d4] s4]; cbn [negb]; cbv beta iota; leaf.
+  - destruct (skip_common (pathSegs (erase src)) (pathSegs (erase base))) as [s' b'].
+    match goal with |- context [append_segs [] ?tt s] => destruct (append_segs_TR tt [] s) as [M T]; destruct (append_segs [] tt s) as [[[|] segs] s1] end; leaf.
+Qed.
+
+Theorem remove_base_m_TR domain_root src base : TR (remove_base_m domain_root src base).
+Proof.
+  intros s. unfold remove_base_m. destruct (remove_base_impl_m_TR domain_root src base s) as [M T].
+  destruct (remove_base_impl_m domain_root src base s) as [[rc d] s1]. destruct (rc =? 0)%N eqn:E0.
+  - cbn [fst snd] in *. split; [exact M|]. intros C. rewrite (T C). rewrite E0. reflexivity.
+  - destruct (free_members_TR d s1) as [M2 T2]. destruct (free_members d s1) as [d' s2]. cbn [fst snd] in *.
+    split; [mo|]. intros C. rewrite T by cl. rewrite E0. rewrite T2 by cl. reflexivity.
+Qed.
+
+(* ---------------------------------------------------------------- the public form *)
+(* [clean s s']: the plan of s fails none of the requests numbered ms_requests s + 1 .. ms_requests s' *)
+Theorem clean_iff_no_fail s s' : clean s s' <-> ~ fails_between s s'.
+Proof.
+  unfold clean, fails_between. split.
+  - intros C (n & Hn & Hf). rewrite (C n Hn) in Hf. discriminate.
+  - intros H n Hn. destruct (plan_fails (ms_plan s) n) eqn:E; [|reflexivity]. exfalso. apply H. exists n. auto.
+Qed.
